@@ -17,15 +17,37 @@ try:
     MUL_MEMORY_STATUS = translate_c01_r3.generate(core.REPO, os.path.join(core.COQ, "gen"))
 except Exception as _ex:  # the generator itself broke: same fallback as an unparseable source
     MUL_MEMORY_STATUS = "unparsed generator-failed: %s" % str(_ex)[:200]
+# coq/gen/WordKernelsGen.v (round 4): the LOOP KERNELS of integer/src/add.rs, mul/mod.rs, mul/simple.rs and the word multipliers
+# of math.rs, translated loop by loop into Gallina folds over word lists by tools/translate_c01_r4.py on every run;
+# Int/WordKernelsGenProofs.v proves each generated function equal to the hand-written model, so an edited loop body breaks a
+# proof obligation.  A function the translator cannot read keeps its last good copy (marked STALE) and is named in the evidence.
+try:
+    import translate_c01_r4
+    WORD_KERNELS_STATUS = translate_c01_r4.generate(core.REPO, os.path.join(core.COQ, "gen"))
+    WORD_KERNELS_DETAIL = list(translate_c01_r4.LAST_RESULTS)
+except Exception as _ex:
+    WORD_KERNELS_STATUS = "unparsed generator-failed: %s" % str(_ex)[:200]
+    WORD_KERNELS_DETAIL = []
 
 
 def extra_phase(tier, seed, exes, oracle):
     word = MUL_MEMORY_STATUS.split(" ", 1)[0]
+    wk = WORD_KERNELS_STATUS.split(" ", 1)[0]
+    bad = [n for n, st in WORD_KERNELS_DETAIL if st != "ok"]
+    hist = {"translator_c01_r3:MulMemory:" + word: 1, "FRAGMENT:WordKernelsGen:" + wk: 1,
+            "FRAGMENT:WordKernelsGen:functions_ok": len([1 for _, st in WORD_KERNELS_DETAIL if st == "ok"])}
+    for n in bad:
+        hist["FRAGMENT:WordKernelsGen:unparsed:" + n] = 1
     return {
         "evaluations": 0,
-        "hist": {"translator_c01_r3:MulMemory:" + word: 1},
+        "hist": hist,
         "nontrivial": [],
-        "samples": [{"fragment": "coq/gen/MulMemory.v (tools/translate_c01_r3.py from integer/src/math.rs, mul/mod.rs, mul/karatsuba.rs, "
+        "samples": [{"fragment": "coq/gen/WordKernelsGen.v (tools/translate_c01_r4.py from integer/src/math.rs, add.rs, mul/mod.rs, mul/simple.rs)",
+                     "status": WORD_KERNELS_STATUS,
+                     "functions": ", ".join("%s:%s" % (n, st.split(" ", 1)[0]) for n, st in WORD_KERNELS_DETAIL)[:1500],
+                     "tied_by": "C01_gen_* (generated = hand model, all inputs, all w) + ops wk / kmul of the run at w = 64 and w = 32"
+                                if not bad and wk == "ok" else "unparsed functions keep their last good copy (STALE); correspondence run only for them"},
+                    {"fragment": "coq/gen/MulMemory.v (tools/translate_c01_r3.py from integer/src/math.rs, mul/mod.rs, mul/karatsuba.rs, "
                                  "mul/toom_3.rs, sqr/mod.rs, pow.rs)",
                      "status": MUL_MEMORY_STATUS,
                      "tied_by": "C01_scratch_mul, C01_scratch_sqr, C01_scratch_kernels, C01_scratch_sqr_formula_monotone, "
@@ -34,11 +56,24 @@ def extra_phase(tier, seed, exes, oracle):
         "failures": [],
     }
 
+# every case runs against the 64-bit build and the force_bits="32" build; the answers carry the word size (token W40 / W20) and
+# the oracle runs the extracted word-level models at that word size.  Answers marked NATIVE are per build (kernel cases stated
+# in words of one build, scratch sizes, the params line) and are not compared between the builds.
+CONFIGS = ["default", "w32"]
+
+
+def canon_answer(ans):
+    t = ans.split()
+    if "NATIVE" in t:
+        return "NATIVE"
+    return " ".join(x for x in t if not (x.startswith("W") and len(x) == 3))
+
+
 ID = "C01"
 READY = True
 ORACLE = "c01"
 HARNESS_BIN = "c01"
-NCASES = {"quick": 9000, "thorough": 120000}
+NCASES = {"quick": 6500, "thorough": 90000}
 CASE_TIMEOUT = {"quick": 30, "thorough": 120}
 
 LEVEL_TEXT = ("Machine-checked Coq theorems (60 pinned in coq/props/C01.v, no axioms) over word lists of an arbitrary word size "
@@ -107,8 +142,19 @@ ASSUMPTIONS = [
     "primitive word operations of core (overflowing_add, widening multiplication through u128) behave as their mathematical definitions mod 2^64 / 2^128",
 ]
 
-W = 64
+W = 64            # word size the size classes of the current case are counted in (switched per case: 64 or 32)
 MASK = (1 << W) - 1
+
+
+def set_word(bits):
+    global W, MASK
+    W = bits
+    MASK = (1 << W) - 1
+
+
+def gm(rng, n):
+    return gen_mag(rng, n, W)
+
 FORMS6 = ["vv", "vr", "rv", "rr", "av", "ar"]
 FORMS4 = ["vv", "vr", "rv", "rr"]
 SMALL = [0, 1, 1, 2, 2, 3, 3, 4, 5, 8]
@@ -143,11 +189,11 @@ def _addsub_pair(rng, tier):
     """operand pairs that stress carries, borrows and the 2<->3 word boundary"""
     k = rng.below(14)
     n = size(rng, tier, big=rng.chance(1, 8))
-    a = gen_mag(rng, n)
+    a = gm(rng, n)
     if k == 0:
-        return a, gen_mag(rng, size(rng, tier, big=False))
+        return a, gm(rng, size(rng, tier, big=False))
     if k == 1:
-        return a, gen_mag(rng, n)
+        return a, gm(rng, n)
     if k == 2:
         return a, a + rng.choice([-1, 0, 1, 2])
     if k == 3:
@@ -183,7 +229,7 @@ def _addsub_pair(rng, tier):
         return a, a >> rng.choice([1, 63, 64, 65, 128])
     if k == 9:
         # b longer than a
-        return a, gen_mag(rng, n + rng.range(1, 3))
+        return a, gm(rng, n + rng.range(1, 3))
     if k == 10:
         # a - b where only the lowest word differs / result is one word
         return a, a ^ rng.bits(rng.choice([1, 64]))
@@ -193,9 +239,9 @@ def _addsub_pair(rng, tier):
             return 0, 1
         return a, a + (1 << ((n - 1) * W)) * rng.choice([1, -1]) if a >> ((n - 1) * W) > 1 else a + 1
     if k == 12:
-        b = gen_mag(rng, rng.range(max(0, n - 1), n + 1))
+        b = gm(rng, rng.range(max(0, n - 1), n + 1))
         return a, b
-    return a, gen_mag(rng, rng.choice([0, 1, 2]))
+    return a, gm(rng, rng.choice([0, 1, 2]))
 
 
 def mul_pair(rng, tier):
@@ -206,32 +252,32 @@ def mul_pair(rng, tier):
 def _mul_pair(rng, tier):
     k = rng.below(12)
     if k == 0:
-        return gen_mag(rng, size(rng, tier)), gen_mag(rng, size(rng, tier, big=False))
+        return gm(rng, size(rng, tier)), gm(rng, size(rng, tier, big=False))
     if k == 1:
         n = size(rng, tier)
-        return gen_mag(rng, n), gen_mag(rng, n)
+        return gm(rng, n), gm(rng, n)
     if k == 2:
-        a = gen_mag(rng, size(rng, tier))
+        a = gm(rng, size(rng, tier))
         return a, a  # square shortcut of mul_large
     if k == 3:
-        a = gen_mag(rng, size(rng, tier))
+        a = gm(rng, size(rng, tier))
         return a, a + rng.choice([1, -1]) if a else 1
     if k == 4:
         # unbalanced: la = q * lb + r drives add_signed_mul_split_into_chunks
         lb = rng.choice([3, 4, 24, 25, 26, 48, 49, 192, 193, 194, 200]) if rng.chance(2, 3) else rng.range(25, 210)
         q = rng.range(1, 4)
         r = rng.choice([0, 0, 1, 2, 3, 16, 24, 25, lb - 1, lb // 2, rng.below(lb)]) % lb
-        return gen_mag(rng, q * lb + r), gen_mag(rng, lb)
+        return gm(rng, q * lb + r), gm(rng, lb)
     if k == 5:
         # schoolbook with a chunked long operand (CHUNK_LEN = 1024)
         la = rng.choice([1023, 1024, 1025, 1026, 1030, 1047, 1048, 1049, 2047, 2048, 2049, 2050, 2072])
         lb = rng.choice([1, 2, 3, 5, 23, 24])
         if tier != "thorough" and la > 1100 and rng.chance(1, 2):
             la = 1025
-        return gen_mag(rng, la), gen_mag(rng, lb)
+        return gm(rng, la), gm(rng, lb)
     if k == 6:
         # double-word right operand: power of two, one word, full double word
-        a = gen_mag(rng, rng.choice([3, 4, 5, 6, 7, 8, 25, 31]))
+        a = gm(rng, rng.choice([3, 4, 5, 6, 7, 8, 25, 31]))
         d = rng.choice([0, 1, 2, 1 << rng.below(128), rng.bits(64) | 1, MASK, MASK + 1, MASK + 2, rng.bits(128) | (1 << 127) | 1, (1 << 128) - 1, (1 << 64) | 1])
         return a, d
     if k == 7:
@@ -263,7 +309,7 @@ def _mul_pair(rng, tier):
             t0, t1, t2 = third(n3), third(n3), third(n - 2 * n3)
             return t0 | (t1 << (n3 * W)) | ((t2 | (1 << ((n - 2 * n3) * W - 1))) << (2 * n3 * W))
         return mk(), mk()
-    return gen_mag(rng, rng.choice(MULT)), gen_mag(rng, rng.choice(MULT))
+    return gm(rng, rng.choice(MULT)), gm(rng, rng.choice(MULT))
 
 
 def pow_case(rng, tier):
@@ -289,11 +335,11 @@ def pow_case(rng, tier):
         b = rng.choice([MASK + 1, MASK + 2, rng.bits(128) | (1 << 127) | 1, (1 << 128) - 1, rng.bits(65) | (1 << 64) | 1, (1 << 127) + 1])
         e = rng.range(0, 40)
     elif k == 5:
-        b = gen_mag(rng, rng.choice([3, 3, 4, 5, 8, 12, 15, 16, 31, 50]))
+        b = gm(rng, rng.choice([3, 3, 4, 5, 8, 12, 15, 16, 31, 50]))
         e = rng.choice([0, 1, 2, 3, 3, 4, 5, 6, 7, 8, 9, 12, 13, 15, 16, 17])
     elif k == 6:
         # even bases: factor-2 removal, odd part one word / two words / large
-        odd = rng.choice([1, 3, 5, rng.bits(64) | 1, rng.bits(128) | 1 | (1 << 127), gen_mag(rng, 3) | 1, gen_mag(rng, 5) | 1])
+        odd = rng.choice([1, 3, 5, rng.bits(64) | 1, rng.bits(128) | 1 | (1 << 127), gm(rng, 3) | 1, gm(rng, 5) | 1])
         b = odd << rng.choice([1, 2, 63, 64, 65, 127, 128, 129, 200])
         e = rng.range(0, 24)
     elif k == 7:
@@ -306,7 +352,7 @@ def pow_case(rng, tier):
         b = (1 << rng.range(1, 300)) + rng.choice([-1, 1])
         e = rng.range(0, 50)
     elif k == 10:
-        b = gen_mag(rng, rng.choice([1, 2, 3, 4]))
+        b = gm(rng, rng.choice([1, 2, 3, 4]))
         e = rng.choice([3, 4, 5, 6, 7, 8, 15, 16, 17, 31, 32, 33, 63, 64, 65, 100])
     else:
         b = rng.bits(rng.range(1, 64))
@@ -357,7 +403,7 @@ def kernel_case(rng, tier):
             return rng.bits(l * W) & ~(((1 << ((l // 2) * W)) - 1) << ((l // 4) * W))  # a zero run inside
         if r == 2:
             return rng.bits(rng.range(1, l * W))  # leading zero words
-        return gen_mag(rng, l)
+        return gm(rng, l)
     a, b = operand(la), operand(lb)
     if rng.chance(1, 8) and la == lb:
         b = a
@@ -378,7 +424,11 @@ def kernel_case(rng, tier):
         c = rng.bits(n * W) | (((1 << (W * (n // 2))) - 1) << (W * (n // 4)))
         c &= (1 << (n * W)) - 1
     c = min(max(0, c), (1 << (n * W)) - 1)
-    return "kmul %x %d %x %x %s %s %s" % (which, rng.below(2), la, lb, hx(c), hx(a), hx(b))
+    # a case in 64-bit words also runs on the 32-bit build with twice the words - except forced Karatsuba above 96 words: doubled,
+    # its recursion / tail would reach Toom-3 sizes, whose scratch demand the Karatsuba reservation of the hook does not cover
+    # (the real dispatch never sends more than 192 words to Karatsuba): those run on the 64-bit build only (kmul64)
+    name = "kmul32" if W == 32 else ("kmul64" if which == 2 and lb > 96 else "kmul")
+    return "%s %x %d %x %x %s %s %s" % (name, which, rng.below(2), la, lb, hx(c), hx(a), hx(b))
 
 
 def mem_case(rng, tier):
@@ -406,14 +456,84 @@ def mem_case(rng, tier):
     return "kmem %x %x" % (la, lb)
 
 
+def wk_list(rng, n):
+    """the value of an n-word slice, leading zero words allowed"""
+    if n == 0:
+        return 0
+    k = rng.below(8)
+    if k == 0:
+        return (1 << (n * W)) - 1
+    if k == 1:
+        return 0
+    if k == 2:
+        return rng.bits(rng.range(1, n * W))            # leading zero bits / words
+    if k == 3:
+        v = 0
+        for i in range(n):
+            v |= rng.choice([0, MASK, MASK, 1, rng.bits(W)]) << (i * W)
+        return v
+    if k == 4:
+        return 1 << rng.below(n * W)
+    return gm(rng, n) if rng.chance(2, 3) else rng.bits(n * W)
+
+
+def wk_case(rng, tier):
+    """one word kernel of add.rs / mul/mod.rs through verif_hooks::word_kernel, stated in words of W bits"""
+    which = rng.below(20)
+    short = rng.chance(4, 5)
+    ll = rng.choice([0, 1, 1, 2, 2, 3, 3, 4, 5, 6]) if short else rng.range(7, 40)
+    rl = ll
+    x = rng.choice([0, 1, 2, MASK, MASK + 1, MASK + 2, (1 << (2 * W)) - 1, rng.bits(W), rng.bits(2 * W), rng.bits(2 * W) | (1 << (2 * W - 1)), 1 << rng.below(2 * W)])
+    sx = rng.choice([0, 1, -1, (1 << (W - 1)) - 1, -(1 << (W - 1)), rng.bits(W - 1), -rng.bits(W - 1), 2, -2])
+    if which in (2, 3, 15, 16):
+        ll = max(ll, 1) if which in (2, 3) else ll
+        if which in (15, 16) and x & MASK == 0:
+            x |= rng.choice([1, MASK, rng.bits(W) | 1])
+    if which in (4, 5):
+        ll = max(ll, 2)
+    if which == 17 and x <= MASK:
+        x |= rng.choice([1, MASK, rng.bits(W) | 1]) << W
+    if which in (8, 9, 11, 14):
+        rl = rng.range(0, ll)
+    if which in (0, 1, 2, 3, 4, 5, 12, 15, 16, 17):
+        rl = 0
+    lhs = wk_list(rng, ll)
+    rhs = wk_list(rng, rl)
+    if which in (7, 9, 10, 11, 13, 14, 19) and rl and rng.chance(1, 2):
+        # related operands: equal, off by one, equal high part (the top-down comparison of sub_in_place_with_sign)
+        m = (1 << (rl * W)) - 1
+        k = rng.below(5)
+        if k == 0:
+            rhs = lhs & m
+        elif k == 1:
+            rhs = ((lhs & m) + rng.choice([1, -1])) & m
+        elif k == 2:
+            cut = rng.range(0, rl * W - 1)
+            rhs = (((lhs & m) >> cut) << cut) | rng.bits(cut)
+        elif k == 3:
+            lhs = rhs
+        else:
+            lhs = (rhs + rng.choice([1, -1, 1 << rng.below(rl * W)])) & ((1 << (ll * W)) - 1)
+    if which in (0, 2, 4, 6, 8) and rng.chance(1, 3):
+        lhs = (1 << (ll * W)) - 1 - rng.choice([0, 0, 1, rng.bits(W)]) if ll else 0   # carry runs to the top
+        lhs = max(lhs, 0)
+    if which in (1, 3, 5, 7, 9) and rng.chance(1, 3):
+        lhs = rng.choice([0, 1, 1 << ((ll - 1) * W) if ll else 0, rng.bits(W)]) & ((1 << (ll * W)) - 1) if ll else 0  # borrow runs to the top
+    return "wk %x %x %x %x %s %s %s %s" % (W, which, ll, rl, hx(lhs), hx(rhs), hx(x), hx(sx))
+
+
 def gen_cases(rng, tier, n):
     out = ["params"]
     utys = ["u8", "u16", "u32", "u64", "u128", "usize"]
     itys = ["i8", "i16", "i32", "i64", "i128", "isize"]
     bits = {"u8": 8, "u16": 16, "u32": 32, "u64": 64, "usize": 64, "u128": 128, "i8": 8, "i16": 16, "i32": 32, "i64": 64, "isize": 64, "i128": 128}
     while len(out) < n:
-        k = rng.below(100)
-        if k < 12:
+        # size classes counted in 64-bit words or in 32-bit words (every case runs on both builds)
+        set_word(64 if rng.chance(3, 5) else 32)
+        k = rng.below(108)
+        if k >= 100:
+            out.append(wk_case(rng, tier))
+        elif k < 12:
             a, b = addsub_pair(rng, tier)
             if rng.chance(1, 2):
                 a, b = b, a
@@ -457,12 +577,12 @@ def gen_cases(rng, tier, n):
                 out.append("mul_iu %s %s %s" % (rng.choice(FORMS6), hx(sgn(rng, a)), hx(b)))
         elif k < 71:
             nw = rng.choice([0, 1, 1, 2, 2, 3, 4, 5, 15, 16, 29, 30, 31, 32, 33, 60, 61, 191, 192, 193, 194]) if rng.chance(4, 5) else size(rng, tier)
-            a = gen_mag(rng, nw)
+            a = gm(rng, nw)
             if nw and rng.chance(1, 6):
                 a = (1 << (nw * W)) - 1
             out.append(rng.choice(["usqr %s" % hx(a), "isqr %s" % hx(sgn(rng, a))]))
         elif k < 74:
-            a = gen_mag(rng, size(rng, tier, big=False))
+            a = gm(rng, size(rng, tier, big=False))
             out.append(rng.choice(["ucubic %s" % hx(a), "icubic %s" % hx(sgn(rng, a))]))
         elif k < 84:
             b, e = pow_case(rng, tier)
@@ -502,6 +622,7 @@ def gen_cases(rng, tier, n):
             out.append(mem_case(rng, tier))
         else:
             la = rng.choice([2, 2, 3, 4, 5, 8, 16, 29, 30, 31, 32, 33, 48, 49, 60, 61, 90, 192, 193])
-            a = rng.choice([(1 << (la * W)) - 1, gen_mag(rng, la), rng.bits(la * W), rng.bits(rng.range(1, la * W))])
-            out.append("ksqr %x %s" % (la, hx(a)))
+            a = rng.choice([(1 << (la * W)) - 1, gm(rng, la), rng.bits(la * W), rng.bits(rng.range(1, la * W))])
+            out.append("%s %x %s" % ("ksqr" if W == 64 else "ksqr32", la, hx(a)))
+    set_word(64)
     return out
